@@ -91,14 +91,29 @@ def _thread_oracle(res):
 
 
 def _h2_shared(res):
-    """True if two threads had requests in flight on the same HTTP/2 wire."""
+    """True if two threads had requests to the same HTTP/2 origin in flight at the same
+    time (they are then handed the same connection; a thread may fail on it before its
+    first network operation)."""
+    from .c10 import parse_url
+
     w = res.world
-    h2w = {e[3] for e in w.ledger.of("origin_proto") if e[5] == "h2"}
-    users = {}
-    for e in w.ledger.of("op"):
-        if e[5] in h2w and e[6] not in (None, "main"):
-            users.setdefault(e[5], set()).add(e[6])
-    return any(len(u) > 1 for u in users.values())
+    led = w.ledger
+    h2_eps = {tuple(w.wires[e[3]].endpoint) for e in led.of("origin_proto") if e[5] == "h2"}
+    # through a proxy the wire endpoint is the proxy: use the peer label instead
+    h2_labels = {e[4] for e in led.of("origin_proto") if e[5] == "h2"}
+    spans = []
+    end = {}
+    for e in led.of("ret", "exc"):
+        end.setdefault(e[4], e[0])
+    for e in led.of("call"):
+        scheme, host, port = parse_url(e[6].decode())
+        if (host, port) in h2_eps or ("origin:%s:%d" % (host, port)) in h2_labels:
+            spans.append(((host, port), e[3], e[0], end.get(e[4], 10 ** 12)))
+    for i, (o1, c1, a1, b1) in enumerate(spans):
+        for (o2, c2, a2, b2) in spans[i + 1:]:
+            if o1 == o2 and c1 != c2 and a1 < b2 and a2 < b1:
+                return True
+    return False
 
 
 class Limit08(oracles.LimitObserver):
